@@ -427,13 +427,15 @@ def substitute(progression, substitute_index, depth=0):
             elif roman == subs[1]:
                 r = subs[0]
             if r != None:
-                res.append(tuple_to_string((r, acc, "")))
+                # The table entry may carry its own accidental and suffix
+                (r_roman, r_acc, r_suff) = parse_string(r)
+                res.append(tuple_to_string((r_roman, acc + r_acc, r_suff)))
 
                 # Add seventh or triad depending on r
-                if r[-1] != "7":
-                    res.append(tuple_to_string((r, acc, "7")))
+                if r_suff == "":
+                    res.append(tuple_to_string((r_roman, acc + r_acc, "7")))
                 else:
-                    res.append(tuple_to_string((r[:-1], acc, "")))
+                    res.append(tuple_to_string((r_roman, acc + r_acc, r_suff[:-1])))
 
     if suff == "" or suff == "M" or suff == "m":
         res.append(tuple_to_string((roman, acc, suff + "7")))
